@@ -122,3 +122,30 @@ Example T02_9_partial_nontrivial_head :
   bc_safe p = true /\
   breakout_common_code_model p = [SAssign 0 (RVal (VBool true)); SIf (Unknown 1 [1]) [SEv 2 [0]] [SEv 3 [0]]].
 Proof. exact breakout_partial_nontrivial_head. Qed.
+
+(* T02.10  fixes.move_before_loop (on loops with straight-line bodies; findings F02-22, F02-11): refuted
+   for a loop that may run zero times, and -- even for a loop that certainly runs -- when the moved variable
+   is assigned again later in the body.  Sound when every loop out of which something is moved certainly
+   runs at least once (`for` over a non-empty literal, `while <truthy literal>`), the moved statement
+   assigns a constant and its variable is assigned nowhere else in the body. *)
+Theorem T02_10_move_before_loop_refuted :
+  exists p, ~ obs_equiv p (move_before_loop_model p).
+Proof. exact move_before_loop_refuted. Qed.
+Print Assumptions T02_10_move_before_loop_refuted.
+
+Theorem T02_10_move_before_loop_refuted_reassigned :
+  exists p h b e, p = [SLoop h b e] /\ runs_once h = true /\ ~ obs_equiv p (move_before_loop_model p).
+Proof. exact move_before_loop_refuted_reassigned. Qed.
+Print Assumptions T02_10_move_before_loop_refuted_reassigned.
+
+Theorem T02_10_move_before_loop_partial :
+  forall p, mbl_safe (fuel_of p) p = true -> equiv p (move_before_loop_model p).
+Proof. exact move_before_loop_partial. Qed.
+Print Assumptions T02_10_move_before_loop_partial.
+
+Example T02_10_partial_nontrivial :
+  let p := [SLoop (HFor (IKnown 3)) [SEv 1 [1]; SAssign 0 (RVal (VObj true 0)); SEv 2 [0]] []; SEv 3 [0]] in
+  mbl_safe (fuel_of p) p = true /\
+  move_before_loop_model p =
+    [SAssign 0 (RVal (VObj true 0)); SLoop (HFor (IKnown 3)) [SEv 1 [1]; SEv 2 [0]] []; SEv 3 [0]].
+Proof. exact move_before_loop_partial_nontrivial. Qed.
